@@ -173,7 +173,7 @@ def execute_fault_enum(rec):
         total["fault_positions_skipped"] = total.get("fault_positions_skipped", 0) + (c - len(js))
         for j in js:
             for kind in fe["kinds"]:
-                for phase in fe["phases"]:
+                for phase in (fe.get("budgets", [1, 25, 400]) if kind == "rlimit_real" else fe["phases"]):
                     v = dict(base)
                     v["faults"] = [{"op": t, "nth": j, "kind": kind, "phase": phase}]
                     r = execute_one(v, light=True)
